@@ -10,7 +10,7 @@ PROP = {
     "units": [{
         "bin": "smsim", "pkg": "tm/tmengine/internal/tmstate", "inject": [("smsim", "tm/tmengine/internal/tmstate")],
         "tests": [
-            {"name": "TestVerifC08RoundRules", "quick": 12000, "thorough": 1280000, "shards": {"quick": 4, "thorough": 16}},
+            {"name": "TestVerifC08RoundRules", "quick": 6000, "thorough": 640000, "shards": {"quick": 4, "thorough": 16}, "env": {"GOMAXPROCS": "2"}},
         ],
     }],
 }
